@@ -87,6 +87,9 @@ func ProfileFor(prop string) *Profile {
 		p.Reloads = true
 		p.W = scale(p.W, map[string]int{OpReload: 10, OpBound: 25, OpUpdAsk: 25, OpBindAsk: 12})
 	case "C03":
+		// forced (shim-bound) allocations over a lowered maximum take the quota-preemption bookkeeping branch of
+		// IncAllocatedResource: only reachable with the partition flag and a queue delay configured
+		p.Cfg.QuotaPreemption = true
 		p.Scenario = 250
 		p.CrossSwap = 200
 		p.Gang = 400
@@ -137,6 +140,7 @@ func ProfileFor(prop string) *Profile {
 		p.MaxApps = 9
 		p.W = scale(p.W, map[string]int{OpAddApp: 90, OpRmApp: 25, OpFireState: 30, OpRelease: 80, OpFirePH: 14})
 	case "C12":
+		p.Cfg.QuotaPreemption = true
 		p.Gang = 300
 		p.Steps = [2]int{20, 90}
 		p.Reloads = true
